@@ -217,3 +217,15 @@ Definition shape (s : signal) := (s_name s, s_size s, s_le s, s_signed s, s_floa
 
 (* the coordinate in which a signal is an interval: LSB0 number for Intel, sequential MSB0 number for Motorola *)
 Definition walk_pos (le : bool) (p : Z) : Z := if le then 8 * (p / 8) + (7 - p mod 8) else p.
+
+(* start bit non-negative, at least one bit wide *)
+Definition wellformed (s : signal) : Prop := 0 <= s_start s /\ 1 <= s_size s.
+
+(* two lists of start bits are ordered alike, position by position *)
+Definition same_order (xs ys : list Z) : Prop :=
+  length xs = length ys /\
+  forall i j, (i < length xs)%nat -> (j < length xs)%nat ->
+    (nth i xs 0 <? nth j xs 0) = (nth i ys 0 <? nth j ys 0).
+
+(* payload bit p (sequential MSB0 numbering) is used by some signal *)
+Definition used (sigs : list signal) (p : Z) : Prop := exists s, In s sigs /\ occupies s p.
